@@ -432,7 +432,13 @@ def drive_validate(ctx, drive, module, cfg, label, n, expect_ops, key=None, extr
     ctx.traces += 1
     ctx.sub[-1]["driver_summary"] = {k: s[k] for k in ("events", "inconclusive", "panics")}
     for rec, info in mm:
-        k = key(rec) if key else rec.get("op", "?")
+        if key:
+            try:
+                k = key(rec, info)
+            except TypeError:
+                k = key(rec)
+        else:
+            k = rec.get("op", "?")
         what = describe(rec, info) if describe else "%s: vek returned %s, specification %s  [record %s]" % (
             rec.get("op"), json.dumps(rec.get("obs"))[:300], json.dumps(info.get("exp"))[:300],
             json.dumps({a: b for a, b in rec.items() if a != "obs"})[:600])
